@@ -358,6 +358,16 @@ class C02(Property):
             except Exception:  # noqa: BLE001 - not judged
                 pass
         res = self._locate(grid, mask.copy(), spec)
+        if spec["bits"] % 8 == 1:
+            # the same image analysed again on the very same grid object (after another image): identical result, judged below
+            try:
+                first = [(type(d).__name__, d.data.tobytes()) for d in res]
+                self._locate(grid, ~mask, spec)
+                res = self._locate(grid, mask.copy(), spec)
+                if [(type(d).__name__, d.data.tobytes()) for d in res] != first:
+                    ctx.fail("cart:repeated-analysis-differs", "the same image analysed twice on the same grid object gives different droplets")
+            except TypeError:
+                pass
         comps = O.components(mask, geom.periodic)
         nd = geom.dim
         scale = float(geom.L.max())
@@ -448,6 +458,16 @@ class C02(Property):
         mask = gen.bits_to_mask(spec["bits"], (nr, nz))
         per = bool(g["periodic_z"])
         res = self._locate(grid, mask.copy(), spec)
+        # the analysis leaves the grid object as it found it: a second image analysed on the very same grid object (first a
+        # shifted copy, then the same image again) gives the result of the first analysis again - the repeated one is judged below
+        try:
+            first = [(type(d).__name__, d.data.tobytes()) for d in res]
+            self._locate(grid, np.roll(mask, 1, axis=1), spec)
+            res = self._locate(grid, mask.copy(), spec)
+            if [(type(d).__name__, d.data.tobytes()) for d in res] != first:
+                ctx.fail("cyl:repeated-analysis-differs", "the same image analysed twice on the same grid object gives different droplets")
+        except TypeError:
+            pass  # malformed result: reported by the type check below
         comps = O.components(mask, (False, per))
         cv = gen.cyl_cell_volumes(g)
         Lz = nz * g["dz"]
